@@ -283,6 +283,12 @@ def same_eq(a, b):
     return ({k: negq(v) for k, v in a[0].items()}, negq(a[1])) == (b[0], b[1])
 
 
+# model variants: one switch per proposed patch (c constants orientation F13/C15-b, e edge identity C15-c,
+# i initial-condition sign C15-d, j impedances at j·omega C15-g); the code must match one of them, 'asis' first
+NODAL_VARIANTS = ['asis', 'c1j0', 'c0j1', 'patched']
+MESH_VARIANTS = ['asis'] + ['e%di%dj%d' % (e, i, j) for j in (0, 1) for e in (0, 1) for i in (0, 1) if (e, i, j) not in ((0, 0, 0), (1, 1, 1))] + ['patched']
+
+
 def parse_form(s):
     """driver 'k:c k:c ; const' -> ({k: c}, const) as strings"""
     left, const = s.split(' ; ')
@@ -366,11 +372,11 @@ def run(chk, replay=None):
             chk.count('lcapy-error', 'solve:%s' % type(e).__name__)
             return
         replies = {}
-        for variant in ('asis', 'patched'):
+        for variant in NODAL_VARIANTS:
             r = drv.ask1(net.model_req('form.nodal %s' % variant))
             replies[variant] = None if r.startswith('error') or r.startswith('bad') else \
                 {p.split(' = ')[0]: parse_form(p.split(' = ')[1]) for p in r.split(' || ')}
-            if replies[variant] is None:
+            if replies[variant] is None and variant == 'asis':
                 chk.count('model', 'nodal:' + r[:40])
         for node, (lhs, rhs) in eqs.items():
             if node.startswith('*'):
@@ -392,14 +398,14 @@ def run(chk, replay=None):
             # correspondence
             got = ({k: v for k, v in cs.items() if v != '0'}, c0)
             matched = None
-            for variant in ('asis', 'patched'):
+            for variant in NODAL_VARIANTS:
                 if replies[variant] is not None and node in replies[variant]:
                     m = replies[variant][node]
                     if same_eq(({k: v for k, v in m[0].items() if k != '0'}, m[1]), got):
                         matched = matched or variant
             if replies['asis'] is not None:
                 chk.coverage['correspondence']['compared'] += 1
-                same = replies['asis'].get(node) == replies['patched'].get(node) if replies['patched'] else True
+                same = all(replies[v] is None or replies[v].get(node) == replies['asis'].get(node) for v in NODAL_VARIANTS)
                 if matched is None:
                     chk.coverage['correspondence']['disagreements'] += 1
                     disagreements.append({'what': 'nodal equation', 'netlist': net.lines(), 'analysis': net.model_analysis(),
@@ -449,7 +455,7 @@ def run(chk, replay=None):
             return
         chk.count('loops', 'simple-cycles', len(loops))
         replies = {}
-        for variant in ('asis', 'patched'):
+        for variant in MESH_VARIANTS:
             r = drv.ask1(net.model_req('form.mesh %s' % variant, loopsec))
             replies[variant] = [None if p.startswith('error') or p.startswith('bad') else parse_form(p) for p in r.split(' || ')]
         # mesh currents that represent the reported branch currents: traverse the graph edges
@@ -503,7 +509,7 @@ def run(chk, replay=None):
             chk.case(('mesh', net.key(), m), True)
             got = ({k: v for k, v in cs.items() if v != '0'}, c0)
             matched = None
-            for variant in ('asis', 'patched'):
+            for variant in MESH_VARIANTS:
                 if replies[variant][m] is not None and same_eq(replies[variant][m], got):
                     matched = matched or variant
             if replies['asis'][m] is not None:
@@ -518,7 +524,7 @@ def run(chk, replay=None):
                     disagreements.append({'what': 'mesh equation', 'netlist': net.lines(), 'analysis': net.model_analysis(),
                                           'loops': loops, 'mesh': m, 'lcapy': got, 'model_asis': replies['asis'][m],
                                           'model_patched': replies['patched'][m]})
-                elif replies['asis'][m] != replies['patched'][m]:
+                elif any(replies[v][m] != replies['asis'][m] for v in MESH_VARIANTS):
                     chk.coverage['mesh_variant'][matched] = chk.coverage['mesh_variant'].get(matched, 0) + 1
             else:
                 chk.count('model', 'mesh-unsupported')
@@ -541,8 +547,13 @@ def run(chk, replay=None):
                 ac_dropped = net.analysis == 'ac' and replies['asis'][m] is not None and not same_eq(replies['asis'][m], got)
                 if ac_dropped:
                     state['ac_mesh_cex'] = True
-                defect = 'ac-kind-terms-dropped' if ac_dropped else 'parallel-components' if par_on_loop else \
-                    'initial-condition' if ic_on_loop else 'ac-impedance-missing-j' if ac_react else 'unexplained'
+                # which patch switches the code matched tells which defects are still present
+                fl = {'e': 0, 'i': 0, 'j': 0} if matched in (None, 'asis') else {'e': 1, 'i': 1, 'j': 1} if matched == 'patched' \
+                    else {matched[k]: int(matched[k + 1]) for k in (0, 2, 4)}
+                defect = 'ac-kind-terms-dropped' if ac_dropped else \
+                    'parallel-components' if (par_on_loop and not fl['e']) else \
+                    'initial-condition' if (ic_on_loop and not fl['i']) else \
+                    'ac-impedance-missing-j' if (ac_react and not fl['j']) else 'unexplained'
                 cex({'formulation': 'mesh', 'defect': defect},
                     {'input': {'netlist': net.lines(), 'analysis': net.analysis, 'point': fstr(net.point), 'loops': loops, 'mesh': m},
                      'lcapy_equation': '%s = %s' % (lhs, rhs_), 'mesh_currents_from_reported_branch_currents': im,
@@ -866,6 +877,18 @@ def run(chk, replay=None):
                 r = drv.ask1('ss.dcf || %s || %s || %s || %s' % (bq, aq, ' '.join(gq(p_) for p_ in poles), ' '.join(gq(v) for v in res)))
                 mine = '%d ; %s ; %s ; %s ; %s' % (n, ' '.join(A), ' '.join(B), ' '.join(C), D)
                 chk.coverage['correspondence']['compared'] += 1
+                if r != mine and sym.degree(sym.gcd(sym.Poly(num, x), sym.Poly(den, x)), x) > 0:
+                    # patched code (C15-j): common factors are cancelled before the realisation is built
+                    nc, dc_ = sym.fraction(sym.cancel(num / den))
+                    pa_, pb_ = sym.Poly(dc_, x), sym.Poly(nc, x)
+                    lc = pa_.LC()
+                    ac_ = [c / lc for c in pa_.all_coeffs()]
+                    bc_ = [c / lc for c in pb_.all_coeffs()]
+                    r2 = drv.ask1('ss.dcf || %s || %s || %s || %s' % (' '.join(gq(v) for v in bc_), ' '.join(gq(v) for v in ac_),
+                                                                      ' '.join(gq(p_) for p_ in poles), ' '.join(gq(v) for v in res)))
+                    if r2 == mine:
+                        r = mine
+                        chk.count('dcf-variant', 'cancelled-first')
                 if r != mine:
                     if len(b) == len(a) or sym.degree(sym.gcd(sym.Poly(num, x), sym.Poly(den, x)), x) > 0:
                         state['dcf_biproper_mismatch'] = state.get('dcf_biproper_mismatch', 0) + 1
@@ -919,10 +942,12 @@ def run(chk, replay=None):
         if 'form' in inp and 'b' in inp:
             check_tf(inp['domain'], inp['form'], [sym.sympify(v) for v in inp['b']], [sym.sympify(v) for v in inp['a']], 'replay')
         degs = []
-    # fixed case first: the bi-proper DCF example of finding C15-e
+    # fixed cases first: b and a share the root -1 (finding C15-j); a genuine bi-proper function
     if rep is None:
-      check_tf('s', 'DCF', [sym.Integer(3), sym.Integer(0), sym.Integer(2), sym.Integer(5)],
-             [sym.Integer(1), sym.Integer(7), sym.Integer(14), sym.Integer(8)], 'fixed-biproper')
+        check_tf('s', 'DCF', [sym.Integer(3), sym.Integer(0), sym.Integer(2), sym.Integer(5)],
+                 [sym.Integer(1), sym.Integer(7), sym.Integer(14), sym.Integer(8)], 'fixed-common-root')
+        check_tf('s', 'DCF', [sym.Integer(3), sym.Integer(0), sym.Integer(2), sym.Integer(6)],
+                 [sym.Integer(2), sym.Integer(14), sym.Integer(28), sym.Integer(16)], 'fixed-biproper')
     degs = [1, 2, 3, 4, 5, 6] if rep is None else []
     n_tf = 1 if quick else 8
     for dom in ('s', 'z'):
